@@ -17,6 +17,7 @@ func reg(p *Property) { Properties[p.ID] = p }
 func init() {
 	reg(&Property{
 		ID: "C04", Pkgs: []string{"."}, Level: "model_checking",
+		Opts: []HarnessOpt{{Prefix: "VH_C04_collection", QuickBoundsOnly: true}, {Prefix: "VH_C04_multipolygon", QuickBoundsOnly: true}},
 		Rule: "one evaluation = one explored path of a harness (a shape: member/vertex counts, nesting) with every coordinate a free 64-bit pattern; non-trivial = path runs to the end of the harness with all assertions discharged by the solver",
 		Bounds: map[string]string{
 			"coordinates": "all float64 bit patterns except NaN (-0, +-Inf, subnormals included)",
@@ -44,6 +45,7 @@ func init() {
 		"(*" + ModPath + ".Bounds).Overlaps", "(" + ModPath + ".Point).Equals",
 	}
 	reg(&Property{
+		QuickBoundsOnly: true,
 		ID: "C02", Pkgs: []string{"."}, Level: "model_checking",
 		Rule: "one evaluation = one explored path (ring/vertex counts, bbox-filter and on-edge outcomes) with every coordinate a free grid value; non-trivial = path ends with the classification assertion discharged",
 		Opts: []HarnessOpt{{Prefix: "VH_C02_", Mode: "G", Merge: geomMerge, IfConv: true, MaxUnwind: 16}},
@@ -65,7 +67,8 @@ func init() {
 	reg(&Property{
 		ID: "C15", Pkgs: []string{"."}, Level: "model_checking",
 		Rule: "one evaluation = one explored path (pair of shapes, matching decisions) with all coordinates and the tolerance free grid values; non-trivial = path ends with its assertion discharged",
-		Opts: []HarnessOpt{{Prefix: "VH_C15_", Mode: "G", Merge: simMerge, IfConv: true, MaxUnwind: 24}},
+		Opts: []HarnessOpt{{Prefix: "VH_C15_", Mode: "G", Merge: simMerge, IfConv: true, MaxUnwind: 24},
+			{Prefix: "VH_C15_sym_polygon", Mode: "G", Merge: simMerge, IfConv: true, MaxUnwind: 24, QuickBoundsOnly: true}},
 		Bounds: map[string]string{
 			"grid":   "half-integers with 4-6 bit numerators; tolerance a positive grid value",
 			"shapes": "<=2-3 members x <=2-4 vertices; all permutations of members, all rotations of closed rings",
@@ -94,6 +97,7 @@ func init() {
 		Outside:     []string{"the decimal text itself (encoding/json's formatting)", "member counts above the bound"},
 	})
 	reg(&Property{
+		QuickBoundsOnly: true,
 		ID: "C07", Pkgs: []string{"encoding/wkb", "encoding/hex", "encoding/geojson"}, Level: "model_checking",
 		Rule: "one evaluation = one explored decoder path over a buffer of symbolic bytes (byte order, type codes, counts case-split by the solver) or over a generic JSON value tree; non-trivial = path ends with all assertions discharged",
 		Opts: []HarnessOpt{
@@ -132,9 +136,10 @@ func init() {
 		projMerge = append(projMerge, ModPath+"/proj."+f+"$1", ModPath+"/proj."+f+"$2")
 	}
 	reg(&Property{
+		QuickBoundsOnly: true,
 		ID: "C10", Pkgs: []string{".", "proj"}, Level: "model_checking",
 		Rule: "one evaluation = one explored path (geometry shape x index of the failing vertex, or SR pair x call history); non-trivial = path ends with all assertions discharged",
-		Opts: []HarnessOpt{{Prefix: "VH_C10_", IfConv: true, MaxUnwind: 40}, {Prefix: "VH_C10_history", Mode: "U", IfConv: true, MaxUnwind: 60, MaxSteps: 50_000_000, Merge: projMerge},
+		Opts: []HarnessOpt{{Prefix: "VH_C10_", IfConv: true, MaxUnwind: 40, QuickBoundsOnly: true}, {Prefix: "VH_C10_history", Mode: "U", IfConv: true, MaxUnwind: 60, MaxSteps: 50_000_000, Merge: projMerge},
 			{Prefix: "VH_C10_state", Mode: "U", IfConv: true, MaxUnwind: 60, MaxSteps: 50_000_000, Merge: projMerge, ThoroughOnly: true},
 			{Prefix: "VH_C10_state_00", Mode: "U", IfConv: true, MaxUnwind: 60, MaxSteps: 50_000_000, Merge: projMerge},
 			{Prefix: "VH_C10_state_01", Mode: "U", IfConv: true, MaxUnwind: 60, MaxSteps: 50_000_000, Merge: projMerge},
@@ -160,6 +165,7 @@ func init() {
 		ModPath + "/index/rtree.minDist", ModPath + "/index/rtree.minMaxDist",
 	}
 	reg(&Property{
+		QuickBoundsOnly: true,
 		ID: "C11", Pkgs: []string{"index/rtree"}, Level: "model_checking",
 		Rule: "one evaluation = one explored path: a pre-state tree shape, the operation, the heuristic outcomes (seeds, next entry, group, subtree chosen) with all boxes free grid values; non-trivial = path ends with every invariant assertion discharged",
 		Opts: []HarnessOpt{
@@ -180,7 +186,9 @@ func init() {
 		Rule: "one evaluation = one explored path (tree shape, sort order of branches, pruning and insertion decisions) with all boxes and the query point free grid values; non-trivial = path ends with all assertions discharged",
 		Opts: []HarnessOpt{
 			{Prefix: "VH_C12_", Mode: "G", IfConv: true, Merge: rtMerge, MaxUnwind: 40, MaxSteps: 20_000_000, TimeoutMs: 180_000},
-			{Prefix: "VH_C12_knn_h2_wide", Mode: "G", IfConv: true, Merge: rtMerge, MaxUnwind: 40, MaxSteps: 20_000_000, TimeoutMs: 600_000, ThoroughOnly: true},
+			{Prefix: "VH_C12_knn_h2_wide", Mode: "G", IfConv: true, Merge: rtMerge, MaxUnwind: 40, MaxSteps: 20_000_000, TimeoutMs: 600_000, ThoroughOnly: true, QuickBoundsOnly: true},
+			{Prefix: "VH_C12_knn_h2", Mode: "G", IfConv: true, Merge: rtMerge, MaxUnwind: 40, MaxSteps: 20_000_000, TimeoutMs: 180_000, QuickBoundsOnly: true},
+			{Prefix: "VH_C12_nn", Mode: "G", IfConv: true, Merge: rtMerge, MaxUnwind: 40, MaxSteps: 20_000_000, TimeoutMs: 180_000, QuickBoundsOnly: true},
 		},
 		Hooks: []HookSpec{{File: "index/rtree/rtree.go", Funcs: []string{"pickSeeds", "pickNext", "assignGroup", "chooseNode"}}},
 		Bounds: map[string]string{
@@ -191,13 +199,14 @@ func init() {
 		Outside:     []string{"taller trees, other branching parameters, larger coordinates", "trees are arbitrary well-formed pre-states (a superset of the reachable ones)"},
 	})
 	reg(&Property{
+		QuickBoundsOnly: true,
 		ID: "C13", Pkgs: []string{"."}, Level: "model_checking",
 		Rule: "one evaluation = one explored path (vertex count, outcome of every distance test and crossing test) with all coordinates and the tolerance free grid values; non-trivial = path ends with all assertions discharged",
 		Opts: []HarnessOpt{{Prefix: "VH_C13_", Mode: "G", IfConv: true, UnwindIsViolation: true, MaxUnwind: 60, MaxSteps: 400_000,
 			Merge: []string{ModPath + ".findIntersection", ModPath + ".dot", ModPath + ".pointSubtract", "(" + ModPath + ".Point).Equals"}}},
 		Bounds: map[string]string{
 			"grid":     "integers of 3 (quick) / 4 (thorough) signed bits; tolerance a non-negative grid value",
-			"vertices": "0..4 (5 thorough) for the structural clauses; 4..5 (6) for simplicity; termination = the loop exits within the unwinding/step budget",
+			"vertices": "0..4 (5 thorough) for the structural clauses; 4 for simplicity with all vertices free, 5 with the two ends of one candidate chord fixed (either traversal direction); termination = the loop exits within the unwinding/step budget",
 		},
 		Assumptions: []string{
 			"G mode: the perpendicular-foot case of distPointToSegment involves arithmetic on a rounded quotient; that comparison is over-approximated (both outcomes explored), so the structural clauses hold whichever vertices are dropped; the tolerance clause is decided exactly only where every distance test was exact",
@@ -214,13 +223,13 @@ func init() {
 			{Prefix: "VH_C03_area", Mode: "R", Merge: geomMerge, IfConv: true, MaxUnwind: 16},
 			{Prefix: "VH_C03_lemma", Mode: "R", IfConv: true},
 			{Prefix: "VH_C03_area_hole_fixed_shell", Mode: "G", Merge: geomMerge, IfConv: true, MaxUnwind: 16},
-			{Prefix: "VH_C03_area_with_hole", Mode: "G", Merge: geomMerge, IfConv: true, MaxUnwind: 16, ThoroughOnly: true, TimeoutMs: 300_000},
-			{Prefix: "VH_C03_centroid_with_hole", Mode: "R", Merge: geomMerge, IfConv: true, MaxUnwind: 16, ThoroughOnly: true, TimeoutMs: 300_000},
+			{Prefix: "VH_C03_area_with_hole", Mode: "G", Merge: geomMerge, IfConv: true, MaxUnwind: 16, ThoroughOnly: true, QuickBoundsOnly: true, TimeoutMs: 300_000},
+			{Prefix: "VH_C03_centroid_with_hole", Mode: "R", Merge: geomMerge, IfConv: true, MaxUnwind: 16, ThoroughOnly: true, QuickBoundsOnly: true, TimeoutMs: 300_000},
 			{Prefix: "VH_C03_length", Mode: "F"},
 			{Prefix: "VH_C03_buffer", Mode: "F"},
 		},
 		Bounds: map[string]string{
-			"area":     "triangular shells of either winding, any rotation, closed or unclosed; one triangular hole strictly inside; two disjoint members; integer grid of 4 (5) signed bits; the equality Area == |shell| - |hole| is decided as an identity in real arithmetic (every operation involved is exact in float64 on this grid)",
+			"area":     "triangular shells of either winding, any rotation, closed or unclosed; a fixed convex pentagon shell in all 20 spellings (start vertex, winding, closed or not) with a unit triangular hole at a free grid position strictly inside; two disjoint members; integer grid of 4 (5) signed bits; the equality Area == |shell| - |hole| is decided as an identity in real arithmetic (every operation involved is exact in float64 on this grid)",
 			"centroid": "closed triangles, with one hole of opposite winding; real arithmetic (every float operation exact), result compared as a polynomial identity",
 			"length":   "<=5 vertices, all doubles: Length/Buffer compared as terms with libm functions uninterpreted",
 			"distance": "<=4 vertices on the 3-bit grid",
@@ -266,6 +275,7 @@ func init() {
 		Outside:     []string{"position and total length of the clipped pieces for lines that enter the polygon's bounding box (polyclip's CLIPLINE sweep)"},
 	})
 	reg(&Property{
+		QuickBoundsOnly: true,
 		ID: "C18", Pkgs: []string{"encoding/osm"}, Level: "model_checking",
 		Opts: []HarnessOpt{
 			{Prefix: "VH_C18_", Workers: 2, MaxUnwind: 40, MaxSteps: 5_000_000, Preempt: [2]int{2, 3}},
@@ -275,7 +285,7 @@ func init() {
 		Rule: "one evaluation = one explored path = one document template with one tag assignment and ONE COMPLETE SCHEDULE of the main goroutine and the two workers (every choice of the next runnable goroutine at every lock acquisition, channel operation, goroutine start/exit and Wait); non-trivial = path runs to the end with all assertions discharged",
 		Bounds: map[string]string{
 			"workers":   "GOMAXPROCS modelled as 2 (two workers plus the feeding goroutine)",
-			"documents": "six templates of 2-3 objects (node/way order both ways, shared node, relation of a way, relations referring to each other), tags case-split, node positions free doubles against a free box",
+			"documents": "seven templates of 2-3 objects (node/way order both ways, shared node, relation of a way, relations referring to each other, a node and a way with the same number as members of one relation in either order), tags case-split, node positions free doubles against a free box",
 			"schedules": "all interleavings with at most 2 (quick) / 3 (thorough) preemptive context switches (switches when the running goroutine blocks or ends are free), switch points at synchronisation operations only (critical sections are atomic: every shared map access in extract.go is under its mutex)",
 		},
 		Assumptions: []string{"sync.Mutex/RWMutex, channels, errgroup.Go/Wait and GOMAXPROCS are modelled by the scheduler (3.3); a scanner and a ReadSeeker written in the harness stand for the XML/PBF readers"},
@@ -301,8 +311,8 @@ func init() {
 		Opts: []HarnessOpt{{Prefix: "VH_C19_", Mode: "G", IfConv: true, MaxUnwind: 60, MaxSteps: 50_000_000, Merge: rtMerge}},
 		Rule: "one evaluation = one explored path (topology, minimisation option, speeds, every comparison made by the R-tree, the heap and the search) with every link length a free grid value; non-trivial = path ends with all assertions discharged",
 		Bounds: map[string]string{
-			"topologies": "chain of 3 nodes, triangle with a direct link, two components; concrete node positions",
-			"links":      "axis-aligned staircases of symbolic riser height (signed 3-bit grid, >= 0): length span + 2h exact; speeds in {1,2} (thorough {1,2,4,8})",
+			"topologies": "chain of 3 nodes, triangle with a direct link, detour rectangle (7-24-25: S-M-N-T plus the direct link S-T, links added in two orders), two components; concrete node positions",
+			"links":      "axis-aligned staircases of symbolic riser height (signed 3-bit integer grid, half-units of 4 bits for the detour, >= 0): length span + 2h exact; speeds in {1,2} (thorough {1,2,4,8})",
 		},
 		Assumptions: []string{"G mode: Hypot(x, 0) = |x| exactly; link lengths and times are exact", "gonum path.AStar, container/heap, sort and the route package's R-trees are executed from their real SSA"},
 		Outside:     []string{"arbitrary link geometries and topologies", "query points away from the nodes"},
